@@ -19,6 +19,7 @@ from .model import ClassInfo, FuncInfo, Repo, const_value, unparse
 ALL = "*"
 TYPE = "<type>"
 VARARGS = "<varargs>"
+LOSSY_CALLS = frozenset({"len", "bool", "type", "min", "max", "sum", "any", "all", "set", "frozenset", "sorted", "hash", "iter", "next", "isinstance", "callable", "id"})
 CONDITIONAL_PINS_SEEN: set = set()  # (class, member, operand) filled while analysing
 # derived-metadata properties: reading them credits no operand (they are functions of
 # structure the name must cover by itself)
@@ -147,6 +148,24 @@ def _reads_in(repo, c, roots_, f, owner, seen, depth):
             if n.slice.lower is not None and "len(self._parameters)" in unparse(n.slice.lower) and n.slice.upper is None:
                 for sub in ast.walk(n):
                     varargs_nodes.add(id(sub))
+    # operand reads inside a lossy wrapper (``len(self.p)``, ``sorted(self.p)``, ``bool(self.p)``,
+    # ``type(self.p)`` ...) do not put the operand's content into the name
+    lossy_nodes = set()
+    for n in allnodes:
+        if isinstance(n, ast.Call) and isinstance(n.func, ast.Name) and n.func.id in LOSSY_CALLS:
+            if n.func.id == "sorted" and n.args and isinstance(n.args[0], ast.Call) and isinstance(n.args[0].func, ast.Attribute) and n.args[0].func.attr == "items":
+                continue  # sorted(d.items()) keeps keys and values
+            for a in n.args:
+                for sub in ast.walk(a):
+                    lossy_nodes.add(id(sub))
+    for n in allnodes:
+        # ``self.p.get("k")`` / ``self.p["k"]`` use one entry of the operand, not its content
+        if isinstance(n, ast.Call) and isinstance(n.func, ast.Attribute) and n.func.attr in ("get", "pop") and unparse(n.func.value).startswith("self."):
+            for sub in ast.walk(n.func.value):
+                lossy_nodes.add(id(sub))
+        if isinstance(n, ast.Subscript) and isinstance(n.slice, ast.Constant) and isinstance(n.slice.value, str) and unparse(n.value).startswith("self."):
+            for sub in ast.walk(n.value):
+                lossy_nodes.add(id(sub))
     for n in allnodes:
         if isinstance(n, ast.Compare) and any(isinstance(op, (ast.In, ast.NotIn)) for op in n.ops):
             # ``"name" in self._parameters`` is a membership test, not a use of every operand
@@ -155,7 +174,7 @@ def _reads_in(repo, c, roots_, f, owner, seen, depth):
                     varargs_nodes.add(-id(cmp))
     for n in allnodes:
         if isinstance(n, ast.Attribute) and isinstance(n.value, ast.Name) and n.value.id == "self" and isinstance(n.ctx, ast.Load):
-            if -id(n) in varargs_nodes:
+            if -id(n) in varargs_nodes or id(n) in lossy_nodes:
                 continue
             a = n.attr
             if a in ("operands", "_parameters"):
@@ -177,7 +196,7 @@ def _reads_in(repo, c, roots_, f, owner, seen, depth):
                         out |= member_reads(repo, c, a, seen, depth + 1)
                 elif a in P:
                     out.add(a)
-        elif isinstance(n, ast.Call) and unparse(n.func) == "self.operand" and n.args:
+        elif isinstance(n, ast.Call) and unparse(n.func) == "self.operand" and n.args and id(n) not in lossy_nodes:
             v = const_value(n.args[0])
             out.add(v if isinstance(v, str) else ALL)
         elif isinstance(n, ast.Call) and unparse(n.func) in ("type", "funcname") and n.args and unparse(n.args[0]) in ("self", "type(self)"):
